@@ -147,7 +147,7 @@ def gen_cond(r, depth=2, kinds=("value",), well_typed=False, null_p=0.0):
 
 
 # --------------------------------------------------------------------------- parts / paths
-PRIMS = ["a", "b", "c", 0, 1, 2, 1.5, True, "1"]
+PRIMS = ["a", "b", "c", 0, 1, 2, 1.5, True, "1", -1, -2]
 
 
 def gen_part(r, well_typed=False, prim_p=0.4, trees=True):
